@@ -86,6 +86,11 @@ func (rc *replayCtx) build(t types.Type, leaves []*Term, depth int) *inNode {
 	case *types.Struct:
 		n.kind = "struct"
 		for i := 0; i < u.NumFields(); i++ {
+			if embeddedFields[u.Field(i)] {
+				n.fields = append(n.fields, &inNode{kind: "opaque", T: u.Field(i).Type()})
+				n.fnames = append(n.fnames, u.Field(i).Name())
+				continue
+			}
 			off, k := tc.fieldRange(u, i)
 			n.fields = append(n.fields, rc.build(u.Field(i).Type(), leaves[off:off+k], depth))
 			n.fnames = append(n.fnames, u.Field(i).Name())
